@@ -24,6 +24,7 @@ type Clause struct {
 
 type LoopSpec struct {
 	Invariants []Clause
+	Unfolds    []Clause
 	Unroll     int
 }
 
@@ -54,6 +55,8 @@ type FuncContract struct {
 	Extern   bool // method of a dependency package
 	Synth    bool // synthesized by the zero-annotation sweep
 	AllocBound bool // every make in the function is bounded by the unread bytes of its kbin.Reader
+	Unfolds  []Clause // spec-function instances unfolded at function entry
+	AbstractMul bool  // encode * as an uninterpreted function in this function's obligations
 	Pure     bool
 	Loops    map[int]*LoopSpec
 	Sites    []SiteSpec
@@ -98,8 +101,8 @@ type SpecFile struct {
 
 var directiveKW = map[string]bool{
 	"spec": true, "func": true, "extern": true, "mode": true, "requires": true, "ensures": true, "modifies": true,
-	"nopanic": true, "allocbound": true, "loop": true, "site": true, "ghost": true, "lemma": true, "assume": true,
-	"prop": true, "trusted": true, "pure": true, "end": true,
+	"nopanic": true, "allocbound": true, "unfold": true, "loop": true, "site": true, "ghost": true, "lemma": true, "assume": true,
+	"prop": true, "trusted": true, "pure": true, "end": true, "abstract": true,
 }
 
 // ParseSpecFile extracts directives from the comments of a parsed Go file.
@@ -270,6 +273,12 @@ func ParseSpecFile(fset *token.FileSet, f *ast.File) (*SpecFile, error) {
 						cur.ModText = append(cur.ModText, part)
 					}
 				}
+			case "unfold":
+				c, err := mkClause(rest)
+				if err != nil {
+					return nil, err
+				}
+				cur.Unfolds = append(cur.Unfolds, c)
 			case "nopanic":
 				cur.NoPanic = true
 			case "allocbound":
@@ -277,6 +286,12 @@ func ParseSpecFile(fset *token.FileSet, f *ast.File) (*SpecFile, error) {
 			case "trusted":
 				cur.Trusted = true
 				sf.Assumes = append(sf.Assumes, fmt.Sprintf("%s: trusted contract (%s)", cur.Key, rest))
+			case "abstract":
+				if rest == "mul" {
+					cur.AbstractMul = true
+				} else {
+					return nil, fmt.Errorf("%s:%d: unknown abstraction %q", sf.Path, d.line, rest)
+				}
 			case "pure":
 				cur.Pure = true
 			case "loop":
@@ -301,6 +316,15 @@ func ParseSpecFile(fset *token.FileSet, f *ast.File) (*SpecFile, error) {
 						return nil, err
 					}
 					ls.Invariants = append(ls.Invariants, c)
+				case "unfold":
+					// loop k unfold f(args): assume f(args) == body-of-f[args] at the loop head. This is the
+					// definition of the (recursive) spec function, instantiated once: a hint, never an assumption
+					// about the program.
+					c, err := mkClause(body)
+					if err != nil {
+						return nil, err
+					}
+					ls.Unfolds = append(ls.Unfolds, c)
 				case "unroll":
 					n, err := strconv.Atoi(body)
 					if err != nil {
